@@ -42,4 +42,164 @@ __CPROVER_ensures(w_ad_calls == __CPROVER_old(w_ad_calls) + 1)
 __CPROVER_ensures(__CPROVER_return_value == g_ad_ret && (g_ad_ret & 0xffff) < 65521);
 /* clang-format on */
 
+/* ---- memcpy as seen from isal_inflate_set_dict (-DINF_MEMCPY_REC) ----
+ * A symbolic-length memcpy into the 87 KB struct inflate_state is beyond CBMC 6.11 (built-in model: > 10 GB;
+ * a contract that havocs [dst, dst+n): no result in 5 min).  The copy is therefore treated like the checksum
+ * kernels: a *recording* stub.  At the call site CBMC proves the stub's precondition -- destination
+ * writable and source readable for exactly n bytes (that is the memory-safety statement of the copy) --
+ * and the caller's contract states the exact (dst, src, n) of the one call.  That those arguments make
+ * tmp_out_buffer[0..n) equal to the last n dictionary bytes is memcpy's C11 7.24.2.1 semantics: ASSUMED.
+ * The stub writes nothing, so the caller's frame for [dst, dst+n) is not checked by dfcc. */
+#if defined(INF_MEMCPY_REC)
+#include <string.h>
+extern uint32_t w_mc_calls;          /* number of memcpy calls so far */
+extern const void *w_mc_dst[2], *w_mc_src[2]; /* arguments of call 0 and call 1 */
+extern size_t w_mc_n[2];
+void *
+memcpy(void *dst, const void *src, size_t n)
+        /* clang-format off */
+__CPROVER_requires(w_mc_calls < 2 && __CPROVER_w_ok(dst, n) && __CPROVER_r_ok(src, n))
+__CPROVER_assigns(w_mc_calls, __CPROVER_object_whole(w_mc_dst), __CPROVER_object_whole(w_mc_src), __CPROVER_object_whole(w_mc_n))
+__CPROVER_ensures(w_mc_calls == __CPROVER_old(w_mc_calls) + 1)
+__CPROVER_ensures(w_mc_dst[w_mc_calls - 1] == dst && w_mc_src[w_mc_calls - 1] == src && w_mc_n[w_mc_calls - 1] == n)
+__CPROVER_ensures(w_mc_calls == 2 ==> (w_mc_dst[0] == __CPROVER_old(w_mc_dst[0]) && w_mc_src[0] == __CPROVER_old(w_mc_src[0]) && w_mc_n[0] == __CPROVER_old(w_mc_n[0])))
+__CPROVER_ensures(__CPROVER_return_value == dst);
+/* clang-format on */
+#endif
+
+/* ---- read_header as seen from read_header_stateful (-DINF_HDRS): ASSUMED interface contract.
+ * read_header_stateful points next_in into state->tmp_in_buffer, so the proved contract C_read_header
+ * (harnesses read_header_*; separate input buffer) cannot be instantiated literally.  Assumed here:
+ *  - the frame and the return codes of the proved contract;
+ *  - input is consumed monotonically inside [next_in, next_in+avail_in); k = bytes consumed is recorded;
+ *  - ISAL_END_INPUT only after all input has been taken (proved for BTYPE 0/early end; for BTYPE 2 it is
+ *    setup_dynamic_header's return path `read_in_length < 0`, which needs avail_in == 0);
+ *  - ISAL_END_INPUT is impossible when ISAL_DEF_MAX_HDR_SIZE (328) bytes were available: a dynamic header
+ *    is at most 14 + 19*3 + 316*7 = 2283 bits = 286 bytes (each code-length symbol costs <= 7 bits per table
+ *    entry it defines; repeat codes cost <= 14 bits for >= 3 entries). */
+#if defined(INF_HDRS)
+extern uint32_t w_rh_calls, w_rh_k, w_rh_avail;
+extern uint8_t *w_rh_next_in;
+extern int g_rh_ret;
+#define C_read_header                                                                              \
+        __CPROVER_assigns(w_rh_calls, w_rh_k, w_rh_avail, w_rh_next_in, state->read_in,            \
+                          state->read_in_length, state->next_in, state->avail_in, state->bfinal,   \
+                          state->type0_block_len, state->block_state, state->lit_huff_code,        \
+                          state->dist_huff_code)                                                   \
+        __CPROVER_ensures(w_rh_calls == __CPROVER_old(w_rh_calls) + 1 &&                           \
+                          w_rh_avail == __CPROVER_old(state->avail_in) &&                          \
+                          w_rh_next_in == __CPROVER_old(state->next_in))                           \
+        __CPROVER_ensures(w_rh_k <= __CPROVER_old(state->avail_in) &&                              \
+                          state->avail_in == __CPROVER_old(state->avail_in) - w_rh_k &&            \
+                          state->next_in == __CPROVER_old(state->next_in) + w_rh_k)                \
+        __CPROVER_ensures(__CPROVER_return_value == g_rh_ret &&                                    \
+                          (g_rh_ret == 0 || g_rh_ret == ISAL_END_INPUT ||                          \
+                           g_rh_ret == ISAL_INVALID_BLOCK))                                        \
+        __CPROVER_ensures(g_rh_ret == ISAL_END_INPUT ==>                                           \
+                          (state->avail_in == 0 &&                                                 \
+                           __CPROVER_old(state->avail_in) < ISAL_DEF_MAX_HDR_SIZE))                \
+        __CPROVER_ensures(g_rh_ret == 0 ==> (state->block_state == ISAL_BLOCK_TYPE0 ||             \
+                                             state->block_state == ISAL_BLOCK_CODED))
+#endif
+
+/* ---- setup_static_header / setup_dynamic_header (igzip/igzip_inflate.c, C) as seen from read_header ----
+ * Frame-only ASSUMED contracts used when read_header is enforced (-DINF_HDR): they say which fields the
+ * table builders may touch, which codes they return, and record the accumulator/input position at the
+ * call, so that read_header's contract can state "the Huffman header parser starts exactly 3 bits after
+ * the block start".  What setup_dynamic_header itself does is covered (partly) by its own harnesses. */
+#if defined(INF_HDR)
+extern uint32_t w_st_calls, w_dy_calls;
+extern uint64_t w_dy_read_in;
+extern int32_t w_dy_len;
+extern uint32_t w_dy_avail;
+extern uint8_t *w_dy_next_in;
+extern int g_dy_ret;
+#define C_setup_static_header                                                                      \
+        __CPROVER_assigns(w_st_calls, state->lit_huff_code, state->dist_huff_code,                 \
+                          state->block_state)                                                      \
+        __CPROVER_ensures(w_st_calls == __CPROVER_old(w_st_calls) + 1)                             \
+        __CPROVER_ensures(__CPROVER_return_value == 0 && state->block_state == ISAL_BLOCK_CODED)
+#define C_setup_dynamic_header                                                                     \
+        __CPROVER_assigns(w_dy_calls, w_dy_read_in, w_dy_len, w_dy_avail, w_dy_next_in,            \
+                          state->read_in, state->read_in_length, state->next_in, state->avail_in,  \
+                          state->lit_huff_code, state->dist_huff_code, state->block_state)         \
+        __CPROVER_ensures(w_dy_calls == __CPROVER_old(w_dy_calls) + 1 &&                           \
+                          w_dy_read_in == __CPROVER_old(state->read_in) &&                         \
+                          w_dy_len == __CPROVER_old(state->read_in_length) &&                      \
+                          w_dy_avail == __CPROVER_old(state->avail_in) &&                          \
+                          w_dy_next_in == __CPROVER_old(state->next_in))                           \
+        __CPROVER_ensures(state->avail_in <= __CPROVER_old(state->avail_in) &&                     \
+                          state->next_in == __CPROVER_old(state->next_in) +                        \
+                                                    (__CPROVER_old(state->avail_in) - state->avail_in)) \
+        __CPROVER_ensures(__CPROVER_return_value == g_dy_ret &&                                    \
+                          (g_dy_ret == 0 || g_dy_ret == ISAL_END_INPUT ||                          \
+                           g_dy_ret == ISAL_INVALID_BLOCK))                                        \
+        __CPROVER_ensures(g_dy_ret == 0 ? state->block_state == ISAL_BLOCK_CODED                   \
+                                        : state->block_state == __CPROVER_old(state->block_state))
+#endif
+
+/* ---- callees of setup_dynamic_header as seen from its prefix harness (-DINF_DYN): frame-only ASSUMED
+ * contracts (table builders), a recording stub for set_codes (its verdict g_sc_ret[call] is unconstrained;
+ * the proved contract is C_set_codes in harnesses set_codes_*), and a *bounded* stand-in for
+ * decode_next_header: it returns an arbitrary 9-bit symbol, consumes input like the real one, and after
+ * DYN_MAX_SYMS calls reports exhausted input (read_in_length < 0) -- so the code-length decoding loop is
+ * explored for at most DYN_MAX_SYMS code-length symbols (B). */
+#if defined(INF_DYN)
+#ifndef DYN_MAX_SYMS
+#define DYN_MAX_SYMS 2
+#endif
+extern uint32_t w_sc_calls, w_dnh_calls, w_mk_calls, w_sc_len[2];
+extern int g_sc_ret[2];
+extern uint16_t g_dnh_sym;
+#define C_header_matches_pregen __CPROVER_assigns() __CPROVER_ensures(__CPROVER_return_value == 0)
+#define C_setup_pregen_header __CPROVER_assigns() __CPROVER_ensures(__CPROVER_return_value == 0)
+#define C_set_codes                                                                                \
+        __CPROVER_requires(w_sc_calls < 2 && table_length >= 0 &&                                  \
+                           __CPROVER_rw_ok(huff_code_table, table_length * sizeof(struct huff_code)) && \
+                           __CPROVER_r_ok(count, 16 * sizeof(uint16_t)))                           \
+        __CPROVER_assigns(w_sc_calls, __CPROVER_object_whole(w_sc_len),                            \
+                          __CPROVER_object_upto(huff_code_table, table_length * sizeof(struct huff_code))) \
+        __CPROVER_ensures(w_sc_calls == __CPROVER_old(w_sc_calls) + 1 &&                           \
+                          w_sc_len[w_sc_calls - 1] == (uint32_t) table_length &&                   \
+                          __CPROVER_return_value == g_sc_ret[w_sc_calls - 1] &&                    \
+                          (g_sc_ret[w_sc_calls - 1] == 0 ||                                        \
+                           g_sc_ret[w_sc_calls - 1] == ISAL_INVALID_BLOCK))
+#define C_set_and_expand_lit_len_huffcode                                                          \
+        __CPROVER_requires(__CPROVER_rw_ok(lit_len_huff, LIT_LEN_ELEMS * sizeof(struct huff_code)) && \
+                           __CPROVER_rw_ok(count, MAX_LIT_LEN_COUNT * sizeof(uint16_t)) &&         \
+                           __CPROVER_rw_ok(expand_count, MAX_LIT_LEN_COUNT * sizeof(uint16_t)) &&  \
+                           __CPROVER_w_ok(code_list, (LIT_LEN_ELEMS + 2) * sizeof(uint32_t)))      \
+        __CPROVER_assigns(__CPROVER_object_upto(lit_len_huff, LIT_LEN_ELEMS * sizeof(struct huff_code)), \
+                          __CPROVER_object_upto(count, MAX_LIT_LEN_COUNT * sizeof(uint16_t)),      \
+                          __CPROVER_object_upto(expand_count, MAX_LIT_LEN_COUNT * sizeof(uint16_t)), \
+                          __CPROVER_object_upto(code_list, (LIT_LEN_ELEMS + 2) * sizeof(uint32_t))) \
+        __CPROVER_ensures(__CPROVER_return_value == 0 || __CPROVER_return_value == ISAL_INVALID_BLOCK)
+#define C_make_inflate_huff_code_header                                                            \
+        __CPROVER_requires(__CPROVER_w_ok(result, sizeof(*result)))                                \
+        __CPROVER_assigns(w_mk_calls, __CPROVER_object_whole(result),                              \
+                          __CPROVER_object_upto(huff_code_table, table_length * sizeof(struct huff_code))) \
+        __CPROVER_ensures(w_mk_calls == __CPROVER_old(w_mk_calls) + 1)
+#define C_make_inflate_huff_code_dist                                                              \
+        __CPROVER_requires(__CPROVER_w_ok(result, sizeof(*result)))                                \
+        __CPROVER_assigns(w_mk_calls, *result,                                                     \
+                          __CPROVER_object_upto(huff_code_table, table_length * sizeof(struct huff_code))) \
+        __CPROVER_ensures(w_mk_calls == __CPROVER_old(w_mk_calls) + 1)
+#define C_make_inflate_huff_code_lit_len                                                           \
+        __CPROVER_requires(__CPROVER_w_ok(result, sizeof(*result)))                                \
+        __CPROVER_assigns(w_mk_calls, *result,                                                     \
+                          __CPROVER_object_upto(huff_code_table, table_length * sizeof(struct huff_code))) \
+        __CPROVER_ensures(w_mk_calls == __CPROVER_old(w_mk_calls) + 1)
+#define C_decode_next_header                                                                       \
+        __CPROVER_assigns(w_dnh_calls, state->read_in, state->read_in_length, state->next_in,      \
+                          state->avail_in)                                                         \
+        __CPROVER_ensures(w_dnh_calls == __CPROVER_old(w_dnh_calls) + 1 &&                         \
+                          __CPROVER_return_value < 512)                                            \
+        __CPROVER_ensures(state->read_in_length <= 64 && state->read_in_length >= -64 &&           \
+                          (state->read_in_length >= 0 || state->avail_in == 0) &&                  \
+                          state->avail_in <= __CPROVER_old(state->avail_in) &&                     \
+                          state->next_in == __CPROVER_old(state->next_in) +                        \
+                                                    (__CPROVER_old(state->avail_in) - state->avail_in)) \
+        __CPROVER_ensures(w_dnh_calls > DYN_MAX_SYMS ==> state->read_in_length < 0)
+#endif
+
 #endif
